@@ -81,7 +81,7 @@ func (h *heapCtx) stmt() []node {
 	hashes := h.ofKind("hash")
 	strs := h.ofKind("str")
 	outers := h.ofKind("outer")
-	choice := r.intn(24)
+	choice := r.intn(26)
 	switch {
 	case choice == 0 || len(arrs) == 0: // a new array
 		n := r.intn(5)
@@ -229,6 +229,48 @@ func (h *heapCtx) stmt() []node {
 		name := h.fresh("v")
 		h.vars = append(h.vars, heapVar{name: name, kind: "arr", n: b.n})
 		return []node{nDef(name, nApp("map", nFn(strict("x"), "", nApp("aset", nSym(a.name), nInt(0), nSym("x")), nApp("+", nSym("x"), nInt(1))), nSym(b.name)))}
+	}
+	if choice == 23 {
+		// an array (or hash) literal evaluated more than once must give a new object each time, whatever
+		// its syntactic position: function result, call argument, let binding, cond arm, nested literal
+		mk, idf := h.fresh("mk"), h.fresh("idf")
+		lit := nArr(nInt(0), nInt(0))
+		pos := r.intn(8)
+		var body node
+		switch pos {
+		case 0:
+			body = lit
+		case 1:
+			body = nCall(nSym(idf), lit)
+		case 2:
+			body = nLet("let", []bind{{"t", lit}}, nSym("t"))
+		case 3:
+			body = nCond([]clause{{nBool(true), lit}}, nNil())
+		case 4:
+			body = nApp("append", nArr(nInt(0)), nInt(0))
+		case 5:
+			body = nApp("aget", nArr(lit, nInt(1)), nInt(0))
+		case 6:
+			body = nBegin(nInt(1), lit)
+		default:
+			body = nCall(nSym(idf), nApp("concat", lit))
+		}
+		a, b := h.fresh("v"), h.fresh("v")
+		h.vars = append(h.vars, heapVar{name: a, kind: "arr", n: 2}, heapVar{name: b, kind: "arr", n: 2})
+		out := []node{nDefn(idf, strict("p"), "", nSym("p")), nDefn(mk, nil, "", body),
+			nDef(a, nCall(nSym(mk))), nApp("aset", nSym(a), nInt(0), nInt(7)), nDef(b, nCall(nSym(mk))),
+			nApp("tr", nInt(h.key()), nSym(a)), nApp("tr", nInt(h.key()), nSym(b))}
+		if r.bool() {
+			// rows built in a loop from one literal are independent
+			rows := h.fresh("o")
+			h.vars = append(h.vars, heapVar{name: rows, kind: "outer", n: 3})
+			out = append(out, nDef(rows, nArr()),
+				nFor("", nDef("i", nInt(0)), nApp("<", nSym("i"), nInt(3)), nSet("i", nApp("+", nSym("i"), nInt(1))),
+					nSet(rows, nApp("append", nSym(rows), nCall(nSym(idf), nArr(nInt(0), nInt(0), nInt(0)))))),
+				nApp("aset", nApp("aget", nSym(rows), nInt(1)), nInt(1), nInt(7)),
+				nApp("tr", nInt(h.key()), nSym(rows)))
+		}
+		return out
 	}
 	// observe something
 	all := append(append(append([]int{}, arrs...), hashes...), outers...)
